@@ -128,6 +128,97 @@ def describe_upvar(mir, b, p, fam_by_id, depth):
     return 'upvar'
 
 
+def is_limit_operand(b, op, fld, lim):
+    """the operand is (a copy of / a reference to / a dereference of) the Some payload of RuntimeLimits.<fld>"""
+    pp0 = op_place(op)
+    if pp0 is None:
+        return False
+    if is_limit_place(pp0, fld):
+        return True
+    l = pp0['l'] if all(not isinstance(e, dict) for e in pp0['p']) else None
+    seen_l = set()
+    while l is not None and l not in seen_l:
+        seen_l.add(l)
+        if (b.id, l) in lim:
+            return True
+        ds = b.defs().get(l, [])
+        if not ds:
+            return False
+        if len(ds) != 1 or ds[0][0] != 'stmt':
+            return False
+        rv = ds[0][3]['rv']
+        if rv['k'] == 'use':
+            pp = op_place(rv['op'])
+        elif rv['k'] in ('ref', 'copyderef'):
+            pp = rv['place']
+        else:
+            return False
+        if pp is None:
+            return False
+        if is_limit_place(pp, fld):
+            return True
+        if any(isinstance(e, dict) for e in pp['p']):
+            return False
+        l = pp['l']
+    return False
+
+
+def defining_call(b, local, depth=10):
+    """the call terminator that produced this local, through plain moves"""
+    for _ in range(depth):
+        k, v = mirq.chase(b, local)
+        if k == 'call':
+            return v[1]
+        return None
+    return None
+
+
+def gate_functions(mir, gate):
+    """the gate itself and every local function all of whose paths to a return pass a call of a gate function (wrappers)"""
+    gates = {gate}
+    changed = True
+    while changed:
+        changed = False
+        for b in mir.bodies:
+            if b.kind != 'fn' or b.nid in gates:
+                continue
+            gbs = [bb for bb, t in b.calls() if strip_generics(t.get('callee') or '') in gates]
+            if not gbs:
+                continue
+            rets = [i for i, bl in enumerate(b.blocks) if bl['term']['k'] == 'return']
+            # paths that end in an error of their own (`_0 = Err(..)`, `?` residual) are not the gate being skipped
+            errs = [i for i, j, s in b.stmts() if s['k'] == 'assign' and s['place']['l'] == 0 and s['rv']['k'] == 'agg' and s['rv'].get('v') == 'Err']
+            errs += [bb for bb, t in b.calls() if (t.get('callee') or t.get('decl') or '').endswith('from_residual') and t['dest']['l'] == 0]
+            reach = b.reachable(0, avoid=gbs + errs)
+            if not any(r in reach for r in rets):
+                gates.add(b.nid)
+                changed = True
+    return gates
+
+
+def private_helper_of(mir, b, allowed, depth=3):
+    """is body b reachable only from the allowed mechanism bodies (a private helper extracted from them)?"""
+    idx = mir.callers_index()
+    seen = set()
+    todo = [b.nid]
+    for _ in range(depth + 1):
+        nxt = []
+        for n in todo:
+            if n in seen:
+                continue
+            seen.add(n)
+            callers = {c[0].nid.split('::{closure')[0] for c in idx.get(n, [])}
+            if not callers:
+                return False
+            for c in callers:
+                if c not in allowed:
+                    nxt.append(c)
+        if not nxt:
+            return True
+        todo = nxt
+    return False
+
+
 def run(ctx):
     mir = ctx.mir
     ctx.explanation = ('Structural clauses of the limit mechanism decided on resolved MIR for all bodies: single door to user frames, '
@@ -172,16 +263,18 @@ def run(ctx):
     # ---------------- R08.2
     r2 = ctx.rule('R08.2', 'counters and depth test dominate frame construction / declaration evaluation')
 
-    def cont_blocks(body, callee):
+    def gate_blocks(body, gate):
+        """call blocks of the gate (or of a wrapper all of whose paths pass it) whose result is tested / propagated"""
+        gs = gate_functions(mir, gate)
         ks = []
         for bb, t in body.calls():
-            if strip_generics(t.get('callee') or '') == callee:
-                cb = mirq.try_continue_block(body, bb)
-                if cb:
-                    ks.append(cb[0])
-        return ks
-    incs = cont_blocks(efv, 'runtime::Runtime::increment_call_limit')
-    tmo = cont_blocks(efv, 'runtime::Runtime::check_timeout')
+            if strip_generics(t.get('callee') or '') in gs and not t['dest']['p']:
+                cons = mirq.consumers(mir, body, t['dest']['l'], depth=0)
+                if '<discriminant test>' in cons or any(c.endswith('::branch') for c in cons):
+                    ks.append(bb)
+        return ks, gs
+    incs, inc_gates = gate_blocks(efv, 'runtime::Runtime::increment_call_limit')
+    tmo, _tg = gate_blocks(efv, 'runtime::Runtime::check_timeout')
     for bb, t in efv.calls():
         if strip_generics(t.get('callee') or '') != FT:
             continue
@@ -194,7 +287,7 @@ def run(ctx):
             r2.fail('eval_func_with_values/no-timeout', mirq.site(efv, bb), 'a user frame is built on a path that has not passed check_timeout()?')
     # the call counter is bumped once per call, outside the trampoline loop (tail iterations are bounded by the recursion limit only)
     for bb, t in efv.calls():
-        if strip_generics(t.get('callee') or '') == 'runtime::Runtime::increment_call_limit':
+        if strip_generics(t.get('callee') or '') in inc_gates:
             in_loop = bb in efv.reachable(efv.term(bb)['target'])
             r2.inst({'site': mirq.site(efv, bb), 'inside_loop': in_loop}, ok=not in_loop)
             if in_loop:
@@ -205,40 +298,114 @@ def run(ctx):
         r2.fail('from_template/depth-site', mirq.site(ft, 0), 'expected exactly one MaximumStackDepth construction in from_template, found %d' % len(viol))
     else:
         vb = viol[0][0]
-        # the controlling switch: the unique predecessor switch block of vb
-        preds = ft.preds()[vb]
-        sw = [p for p in preds if ft.term(p)['k'] == 'switch']
-        if len(sw) != 1:
-            r2.fail('from_template/depth-switch', mirq.site(ft, vb), 'unrecognised control shape around the depth violation')
+        fam_ft = family(mir, ft)
+        lim_ft = limit_locals(mir, ft, 'depth_limit', fam_ft)
+        # test blocks of from_template: the block holding the comparison against the limit, or the call that runs the closure
+        # holding it (Option::map_or / is_some_and / ..)
+        tests = set()
+        for b2 in fam_ft:
+            for i2, j2, s2 in b2.stmts():
+                if s2['k'] == 'assign' and s2['rv']['k'] == 'bin' and s2['rv']['op'] in MIRROR:
+                    if is_limit_operand(b2, s2['rv']['a'], 'depth_limit', lim_ft) != is_limit_operand(b2, s2['rv']['b'], 'depth_limit', lim_ft):
+                        if b2 is ft:
+                            tests.add(i2)
+                        else:
+                            for (pb, ci, cj) in mirq.closure_creation_sites(mir, b2.id):
+                                if pb is ft:
+                                    cl = pb.blocks[ci]['stmts'][cj]['place']['l']
+                                    for cbb, ct in ft.calls():
+                                        if any(op_local(a) == cl for a in ct['args']):
+                                            tests.add(cbb)
+        # edges taken when no depth limit is configured: None target of a switch on the discriminant of the limit option
+        none_edges = set()
+        for i2 in range(len(ft.blocks)):
+            tm2 = ft.term(i2)
+            if tm2['k'] != 'switch':
+                continue
+            dl2 = op_local(tm2['discr'])
+            for kind2, bb2, idx2, x2 in ft.defs().get(dl2, []) if dl2 is not None else []:
+                if kind2 == 'stmt' and x2['rv']['k'] == 'discr' and is_limit_place(x2['rv']['place'], 'depth_limit'):
+                    tg = dict((int(v), x) for v, x in tm2['targets'])
+                    none_t = tg.get(0, tm2['otherwise'] if 1 in tg else None)
+                    if none_t is not None:
+                        none_edges.add((i2, none_t))
+        if not tests:
+            r2.fail('from_template/depth-switch', mirq.site(ft, vb), 'no comparison of the frame height with depth_limit found in from_template')
         else:
-            swb = sw[0]
-            t = ft.term(swb)
-            pass_bbs = [x for v, x in t['targets'] if x != vb] + ([t['otherwise']] if t['otherwise'] != vb else [])
+            # reachable from entry without passing a test block and without taking a "no limit configured" edge
+            seen_b = set()
+            todo_b = [0]
+            while todo_b:
+                cur = todo_b.pop()
+                if cur in seen_b or cur in tests:
+                    continue
+                seen_b.add(cur)
+                for nx in ft.succs()[cur]:
+                    if (cur, nx) not in none_edges:
+                        todo_b.append(nx)
             evaluators = []
             for bb, c in ft.calls():
                 nm = strip_generics(c.get('callee') or c.get('decl') or '')
                 if nm in ('runtime_scope::RuntimeScope::eval', 'xexpr::XStaticFunction::to_function', 'xvalue::ManagedXValue::new', 'runtime_scope::TemplatedEvaluationCell::put') or (c.get('callee') is None and 'Fn' in nm):
                     evaluators.append((bb, nm))
             for bb, nm in evaluators:
-                ok = any(mirq.dominates(ft, pb, bb) for pb in pass_bbs) and mirq.dominates(ft, swb, bb)
+                ok = bb not in seen_b
                 r2.inst({'site': mirq.site(ft, bb), 'call': nm, 'after_depth_test': ok}, ok=ok, kind=(bb, nm))
                 if not ok:
                     r2.fail('from_template/eval-before-depth-test', mirq.site(ft, bb), '%s can run before the depth test' % nm)
             if len(evaluators) < 4:
                 r2.fail('from_template/evaluators', mirq.site(ft, 0), 'fewer declaration-evaluation sites than confirmed by hand (anchor lost)')
-    # height = parent.height + 1 (closure passed to map_or on stack_parent), default StackDepth(0)
-    hok = False
-    for b in family(mir, ft)[1:]:
-        adds = [t for bb, t in b.calls() if strip_generics(t.get('callee') or '') == '<units::StackDepth as std::ops::Add>::add']
-        if len(adds) == 1 and len(b.blocks) <= 3:
-            a0 = describe(mir, b, adds[0]['args'][0], None)
-            k1, v1 = mirq.chase_op(b, adds[0]['args'][1])
-            one = (k1 == 'rv' and v1[2]['rv']['k'] == 'agg' and v1[2]['rv'].get('adt') == 'units::StackDepth' and v1[2]['rv']['ops'][0].get('const', {}).get('int') == '1')
-            if a0 == 'field:height' and one:
-                hok = True
-    r2.inst({'height': 'parent.height + StackDepth(1)'}, ok=hok)
+    # height = parent.height + 1, or 0 without a stack parent: the leaves of the value stored in the frame's `height` field
+    def leaves(b2, op, depth=6):
+        """[(kind, detail)] of the values an operand can take: through moves, several definitions, and Option::map_or(default, closure)"""
+        out = []
+        pl = op_place(op)
+        if pl is None:
+            return [('const', op.get('const', {}).get('s'))]
+        if pl['p']:
+            return [('place', describe(mir, b2, op, None))]
+        aliases, origins = mirq.move_origins(b2, pl['l'])
+        for obb, idx, kind, payload in origins:
+            if kind == 'call':
+                nm = strip_generics(payload.get('callee') or payload.get('decl') or '')
+                if nm in ('std::option::Option::map_or', 'std::option::Option::map_or_else') and depth > 0:
+                    k1, v1 = mirq.chase_op(b2, payload['args'][1])
+                    if nm.endswith('map_or'):
+                        out += leaves(b2, payload['args'][1], depth - 1)
+                    elif k1 == 'rv' and v1[2]['rv'].get('ak') == 'closure':
+                        cb = mir.by_id.get(v1[2]['rv']['def'])
+                        if cb is not None:
+                            out += leaves(cb, {'move': {'l': 0, 'p': []}}, depth - 1)
+                    k2, v2 = mirq.chase_op(b2, payload['args'][2])
+                    if k2 == 'rv' and v2[2]['rv'].get('ak') == 'closure':
+                        cb = mir.by_id.get(v2[2]['rv']['def'])
+                        if cb is not None:
+                            out += leaves(cb, {'move': {'l': 0, 'p': []}}, depth - 1)
+                elif nm == '<units::StackDepth as std::ops::Add>::add':
+                    a0 = describe(mir, b2, payload['args'][0], None)
+                    k1, v1 = mirq.chase_op(b2, payload['args'][1])
+                    one = (k1 == 'rv' and v1[2]['rv']['k'] == 'agg' and v1[2]['rv'].get('adt') == 'units::StackDepth' and v1[2]['rv']['ops'][0].get('const', {}).get('int') == '1')
+                    out.append(('add', '%s + %s' % (a0, 'StackDepth(1)' if one else '?')))
+                else:
+                    out.append(('call', nm))
+            elif kind == 'rv' and payload['rv']['k'] == 'agg' and payload['rv'].get('adt') == 'units::StackDepth':
+                out.append(('depth', payload['rv']['ops'][0].get('const', {}).get('int')))
+            elif kind == 'param':
+                out.append(('param', payload))
+            else:
+                out.append((kind, 'other'))
+        return out
+    hl = []
+    for i2, j2, s2 in ft.stmts():
+        if s2['k'] == 'assign' and s2['rv']['k'] == 'agg' and (s2['rv'].get('adt') or '').endswith('runtime_scope::RuntimeScope'):
+            adt = mir.adts.get(s2['rv']['adt']) or mir.adts.get('runtime_scope::RuntimeScope')
+            names = [f['name'] for f in adt['variants'][0]['fields']] if adt else []
+            if 'height' in names:
+                hl = leaves(ft, s2['rv']['ops'][names.index('height')])
+    hok = bool(hl) and set(hl) <= {('depth', '0'), ('add', 'field:height + StackDepth(1)')} and ('add', 'field:height + StackDepth(1)') in hl
+    r2.inst({'height': 'parent.height + StackDepth(1) | StackDepth(0)', 'leaves': sorted('%s:%s' % x for x in set(hl))}, ok=hok)
     if not hok:
-        r2.fail('from_template/height', mirq.site(ft, 0), 'frame height is no longer parent.height + 1')
+        r2.fail('from_template/height', mirq.site(ft, 0), 'frame height is no longer parent.height + 1 (or 0 without a parent): %s' % sorted('%s:%s' % x for x in set(hl)))
     # the frame's stack parent is the calling scope
     for bb, t in efv.calls():
         if strip_generics(t.get('callee') or '') == FT:
@@ -264,7 +431,8 @@ def run(ctx):
             if b.get('impl_trait') in ('std::fmt::Debug', 'std::default::Default'):
                 continue
             n += 1
-            ok = b.nid in allowed and mode == 'r'
+            base_nid = b.nid.split('::{closure')[0]
+            ok = (base_nid in allowed or private_helper_of(mir, mir.by_nid.get(base_nid, [b])[0], allowed)) and mode == 'r'
             r3.inst({'field': fld, 'body': b.id, 'mode': mode}, ok=ok, kind=(fld, b.id, mode))
             if not ok:
                 r3.fail('%s/%s' % (b.nid, fld), mirq.site(b, bb), 'limit field %s is %s outside its mechanism: evaluation could depend on the limit other than through its violation' % (fld, 'written' if mode != 'r' else 'read'))
@@ -323,19 +491,7 @@ def run(ctx):
                     la = op_local(s['rv']['a'])
                     lb = op_local(s['rv']['b'])
 
-                    def is_lim(l):
-                        if l is None:
-                            return False
-                        if (b.id, l) in lim:
-                            return True
-                        k, v = mirq.chase(b, l)
-                        if k == 'arg' and (b.id, v) in lim:
-                            return True
-                        if k == 'rv' and v[2]['rv']['k'] == 'use':
-                            pp = op_place(v[2]['rv']['op'])
-                            return pp is not None and is_limit_place(pp, fld)
-                        return False
-                    a_lim, b_lim = is_lim(la), is_lim(lb)
+                    a_lim, b_lim = is_limit_operand(b, s['rv']['a'], fld, lim), is_limit_operand(b, s['rv']['b'], fld, lim)
                     if a_lim == b_lim:
                         continue
                     op = s['rv']['op'] if b_lim else MIRROR[s['rv']['op']]
@@ -346,9 +502,71 @@ def run(ctx):
             r4.fail('%s/comparison' % fld, mirq.site(vb_body, vbb), 'expected exactly one comparison against %s in %s, found %d (unrecognised shape)' % (fld, vb_body.nid, len(cmps)))
             continue
         b, i, j, op, counter = cmps[0]
-        ok_op = op == want_op
-        ok_counter = counter == want_counter or (want_counter == 'local' and counter.startswith('local:'))
-        detail = {'limit': fld, 'normal_form': 'counter(%s) %s limit => %s' % (counter, op, variant), 'site': mirq.site(b, i, j)}
+        NEG = {'Ge': 'Lt', 'Gt': 'Le', 'Le': 'Gt', 'Lt': 'Ge', 'Eq': 'Ne', 'Ne': 'Eq'}
+        # on which edge of the comparison does the violation lie?  (in the comparing body itself, or -- when the comparison is
+        # the value of a closure -- on the edges of the test of Option::map_or(false, closure) / is_some_and(closure))
+        cmp_local = b.blocks[i]['stmts'][j]['place']['l']
+        pol = None      # True: violation on the true edge; False: on the false edge; None: unrecognised
+        negs = 0
+        sw_body, sw_block, res_local = b, i, cmp_local
+        if b is not vb_body:
+            ret_ok = any(s2['k'] == 'assign' and s2['place']['l'] == 0 and s2 is b.blocks[i]['stmts'][j] for _, _, s2 in b.stmts())
+            res_local = None
+            if ret_ok:
+                for bb2, t2 in vb_body.calls():
+                    nm = strip_generics(t2.get('callee') or t2.get('decl') or '')
+                    if nm in ('std::option::Option::map_or', 'std::option::Option::is_some_and'):
+                        cl_arg = t2['args'][2] if nm.endswith('map_or') else t2['args'][1]
+                        k2, v2 = mirq.chase_op(vb_body, cl_arg)
+                        dflt_false = nm.endswith('is_some_and') or t2['args'][1].get('const', {}).get('bool') is False
+                        if k2 == 'rv' and v2[2]['rv'].get('def') == b.id and dflt_false:
+                            sw_body, sw_block, res_local = vb_body, t2['target'], t2['dest']['l']
+        if res_local is not None:
+            # follow Not(..) and plain moves to the switch that tests the value
+            cur = res_local
+            for _ in range(6):
+                nxt = None
+                for i2, j2, s2 in sw_body.stmts():
+                    if s2['k'] == 'assign' and not s2['place']['p']:
+                        if s2['rv']['k'] == 'un' and s2['rv']['op'] == 'Not' and op_local(s2['rv']['a']) == cur:
+                            nxt = s2['place']['l']
+                            negs += 1
+                        elif s2['rv']['k'] == 'use' and op_local(s2['rv']['op']) == cur:
+                            nxt = s2['place']['l']
+                sws = [i2 for i2 in range(len(sw_body.blocks)) if sw_body.term(i2)['k'] == 'switch' and op_local(sw_body.term(i2)['discr']) == cur]
+                if sws:
+                    t2 = sw_body.term(sws[0])
+                    false_targets = [x for v, x in t2['targets'] if v == '0']
+                    true_t = t2['otherwise']
+                    on_true = mirq.dominates(sw_body, true_t, vbb) and true_t not in false_targets
+                    on_false = bool(false_targets) and mirq.dominates(sw_body, false_targets[0], vbb) and false_targets[0] != true_t
+                    if on_true != on_false:
+                        pol = on_true
+                    break
+                if nxt is None:
+                    break
+                cur = nxt
+        if pol is not None and negs % 2 == 1:
+            pol = not pol
+        eff = op if pol in (True, None) else NEG[op]
+        ok_op = pol is not None and eff == want_op
+        # the counter: a field, a local of the comparing body, or -- when the comparison sits in a helper -- the argument at
+        # its call sites
+        cb, ci, ccounter = b, i, counter
+        if counter.startswith('arg:') and b.kind == 'fn':
+            n_arg = int(counter.split(':')[1])
+            sites = list({(c[0].id, c[1]): (c[0], c[1], c[2]) for c in mir.callers_index().get(b.nid, [])}.values())
+            if len(sites) == 1 and n_arg - 1 < len(sites[0][2]['args']):
+                cb, ci = sites[0][0], sites[0][1]
+                ccounter = describe(mir, cb, sites[0][2]['args'][n_arg - 1], fam_by_id)
+                pl0 = op_place(sites[0][2]['args'][n_arg - 1])
+                if pl0 is not None and not pl0['p']:
+                    aliases0, _o = mirq.move_origins(cb, pl0['l'])
+                    named = [x for x in aliases0 if cb.name_of_local(x)]
+                    if named:
+                        ccounter = 'local:%d' % named[0]
+        ok_counter = ccounter == want_counter or (want_counter == 'local' and ccounter.startswith('local:'))
+        detail = {'limit': fld, 'normal_form': 'violation iff counter(%s) %s limit => %s' % (ccounter, eff, variant), 'site': mirq.site(b, i, j)}
         # pre/post increment discipline
         inc_ok = True
         if fld == 'ud_call_limit':
@@ -357,60 +575,34 @@ def run(ctx):
             inc_ok = any(mirq.dominates(b, w, i) for w in wr)
             detail['increment_before_compare'] = inc_ok
         if fld == 'recursion_limit':
-            # counter local: initialised to 0 before the loop, +1 on the TailCall arm dominating the comparison
-            l = int(counter.split(':')[1]) if counter.startswith('local:') else None
+            # counter local: initialised to 0 before the loop, +1 on the TailCall arm dominating the comparison (or the call of the helper)
+            l = int(ccounter.split(':')[1]) if ccounter.startswith('local:') else None
             init0 = inc1 = False
             incb = None
             if l is not None:
-                for kind, dbb, didx, x in b.defs().get(l, []):
+                for kind, dbb, didx, x in cb.defs().get(l, []):
                     if kind == 'stmt' and x['rv']['k'] == 'use' and x['rv']['op'].get('const', {}).get('int') == '0':
                         init0 = True
                     if kind == 'stmt' and x['rv']['k'] == 'use':
                         pp = op_place(x['rv']['op'])
                         if pp is not None:
-                            for kind2, dbb2, didx2, x2 in b.defs().get(pp['l'], []):
+                            for kind2, dbb2, didx2, x2 in cb.defs().get(pp['l'], []):
                                 if kind2 == 'stmt' and x2['rv']['k'] == 'bin' and x2['rv']['op'] in ('AddWithOverflow', 'Add') and op_local(x2['rv']['a']) == l and x2['rv']['b'].get('const', {}).get('int') == '1':
                                     inc1 = True
                                     incb = dbb
-            inc_ok = init0 and inc1 and incb is not None and mirq.dominates(b, incb, i)
+            inc_ok = init0 and inc1 and incb is not None and mirq.dominates(cb, incb, ci)
             detail['counter_init0_inc1_before_compare'] = inc_ok
-        # the violation must be on the true edge of the comparison (directly or through the closure result)
         ok = ok_op and ok_counter and inc_ok
         r4.inst(detail, ok=ok, kind=fld)
-        if not ok_op:
-            r4.fail('%s/operator' % fld, mirq.site(b, i, j), 'limit %s is tested with `counter %s limit`; the documented boundary is `%s`' % (fld, op, want_op))
+        if pol is None:
+            r4.fail('%s/polarity' % fld, mirq.site(b, i, j), 'unrecognised connection between the comparison against %s and its violation' % fld)
+        elif not ok_op:
+            r4.fail('%s/operator' % fld, mirq.site(b, i, j), 'limit %s raises its violation iff `counter %s limit`; the documented boundary is `%s`' % (fld, eff, want_op))
         if not ok_counter:
-            r4.fail('%s/counter' % fld, mirq.site(b, i, j), 'limit %s is compared with %s, expected %s' % (fld, counter, want_counter))
+            r4.fail('%s/counter' % fld, mirq.site(b, i, j), 'limit %s is compared with %s, expected %s' % (fld, ccounter, want_counter))
         if not inc_ok:
             r4.fail('%s/increment' % fld, mirq.site(b, i, j), 'the counter of %s is not incremented by one before being compared (off-by-one)' % fld)
-        # polarity: violation block reachable only through the true edge
-        if b is vb_body:
-            t = b.term(i)
-            if t['k'] == 'switch' and op_local(t['discr']) == b.blocks[i]['stmts'][j]['place']['l']:
-                false_targets = [x for v, x in t['targets'] if v == '0']
-                pol = bool(false_targets) and vbb not in b.reachable(false_targets[0], avoid=[t['otherwise']]) or not false_targets
-                # stricter: violation block dominated by the true edge
-                pol = mirq.dominates(b, t['otherwise'], vbb) and t['otherwise'] not in false_targets
-                r4.inst({'limit': fld, 'violation_on_true_edge': pol}, ok=pol)
-                if not pol:
-                    r4.fail('%s/polarity' % fld, mirq.site(b, i, j), 'the violation is not on the true edge of the comparison')
-        else:
-            # comparison inside a closure passed to Option::map_or(.., false, closure): the violation must be on the true edge of its result
-            pol = False
-            for bb2, t2 in vb_body.calls():
-                nm = strip_generics(t2.get('callee') or t2.get('decl') or '')
-                if nm == 'std::option::Option::map_or':
-                    k2, v2 = mirq.chase_op(vb_body, t2['args'][2])
-                    if k2 == 'rv' and v2[2]['rv'].get('def') == b.id and t2['args'][1].get('const', {}).get('bool') is False:
-                        sw = vb_body.term(t2['target'])
-                        if sw['k'] == 'switch' and op_local(sw['discr']) == t2['dest']['l']:
-                            false_targets = [x for v, x in sw['targets'] if v == '0']
-                            pol = mirq.dominates(vb_body, sw['otherwise'], vbb) and sw['otherwise'] not in false_targets
-            # closure returns the comparison itself
-            ret_ok = any(s2['k'] == 'assign' and s2['place']['l'] == 0 and s2 is b.blocks[i]['stmts'][j] for _, _, s2 in b.stmts())
-            r4.inst({'limit': fld, 'violation_on_true_edge_of_map_or(false, cmp)': pol and ret_ok}, ok=pol and ret_ok)
-            if not (pol and ret_ok):
-                r4.fail('%s/polarity' % fld, mirq.site(vb_body, vbb), 'unrecognised connection between the comparison closure and the violation (expected Option::map_or(false, |limit| counter >= limit))')
+        r4.inst({'limit': fld, 'violation_edge': 'true' if pol else 'false' if pol is False else '?'}, ok=pol is not None)
     r4.need(6)
 
     # ---------------- R08.5 search budget
@@ -431,12 +623,14 @@ def run(ctx):
         if ok:
             tb, tbb, tt = take[0]
             # take(n): n is the closure's parameter = payload of maximum_search
-            k, v = mirq.chase_op(tb, tt['args'][1])
             lim = limit_locals(mir, si[0], 'maximum_search', fam)
-            ok = (k == 'arg' and (tb.id, v) in lim)
+            k, v = mirq.chase_op(tb, tt['args'][1])
+            ok = (k == 'arg' and (tb.id, v) in lim) or is_limit_operand(tb, tt['args'][1], 'maximum_search', lim)
             # chain(take_result, once(Err(MaximumSearch)))
             cb, cbb, ct = chain[0]
-            ok = ok and op_local(ct['args'][0]) == tt['dest']['l'] and op_local(ct['args'][1]) == once[0][2]['dest']['l']
+            c0 = defining_call(cb, op_local(ct['args'][0])) if op_local(ct['args'][0]) is not None else None
+            c1 = defining_call(cb, op_local(ct['args'][1])) if op_local(ct['args'][1]) is not None else None
+            ok = ok and c0 is tt and c1 is once[0][2]
             k2, v2 = mirq.chase_op(cb, once[0][2]['args'][0])
             ok = ok and k2 == 'rv' and v2[2]['rv'].get('v') == 'Err'
             # the repeated element is Ok(())
